@@ -31,6 +31,13 @@ def str (c : Ctx) : Rd String := do
 def outStr (s : String) : String :=
   " ".intercalate (Out.int s.length :: s.toList.map fun ch => Out.int ch.toNat)
 
+/-- a Python argument: `i0 i<int>` int, `i1 <scalar>` float, `i2` anything else -/
+def arg (c : Ctx) : Rd (Arg α) := do
+  let tag ← Rd.nat c
+  if tag = 0 then do let i ← Rd.int c; pure (.int i)
+  else if tag = 1 then do let x : α ← Rd.sc c; pure (.real x)
+  else pure .other
+
 /-- driver ops of C17. `none` = unknown op. -/
 def run (α : Type) [Scalar α] [Codec α] (op : String) (c : Ctx) : Option (Rd String) :=
   match op with
@@ -93,6 +100,34 @@ def run (α : Type) [Scalar α] [Codec α] (op : String) (c : Ctx) : Option (Rd 
       let types ← Rd.list c (Rd.nat c)
       let a : α ← Rd.sc c; let b : α ← Rd.sc c; let cc : α ← Rd.sc c
       pure (pts (exactVertices (rows planes types a b cc)))
+  | "fam.getshapearg" => some do
+      -- in: k, a, c as Python arguments ; out: points | E:kind
+      let k ← Rd.nat c
+      let a : Arg α ← arg c; let cc : Arg α ← arg c
+      pure (ptsE ((tableOf k).getShapeArg a cc))
+  | "fam.ttshapearg" => some do
+      let t : Arg α ← arg c
+      pure (ptsE (Gen.tt.getShapeArg Gen.fam323 t))
+  | "fam.uniformarg" => some do
+      -- in: kind, n as a Python argument ; out: points | E:kind
+      let kind ← Rd.nat c
+      let n : Arg α ← arg c
+      pure (ptsE (uniformGetShape kind n))
+  | "spec.fam.solid" => some do
+      -- in: kind (1 prism, 2 antiprism, 3 pyramid, 4 dipyramid), n, vertex array ;
+      -- out: Spec.vol and Spec.first of the cones over the family's boundary triangulation
+      let kind ← Rd.nat c
+      let n ← Rd.nat c
+      let P : List (V3 α) ← Rd.list c (Rd.v3 c)
+      let S := if kind = 1 then prismSurface n P else if kind = 2 then antiprismSurface n P
+               else if kind = 3 then pyramidSurface n P else dipyramidSurface n P
+      pure s!"{Out.sc (solidVolume S)} {Out.v3 (solidFirst S)}"
+  | "spec.fam.gapcheck" => some do
+      -- in: k (0: 323+, 1: 423), a b c ; out: halfspaceGap of the regenerated table's rows (use Q: exact)
+      let k ← Rd.nat c
+      let a : α ← Rd.sc c; let b : α ← Rd.sc c; let cc : α ← Rd.sc c
+      let T := tableOf k
+      pure (Out.bool (T.rational && halfspaceGap (rows (T.planesS : List (V3 α)) T.types a b cc)))
   | "spec.fam.shoelace" => some do
       let P : List (V3 α) ← Rd.list c (Rd.v3 c)
       pure (Out.sc (shoelace P))
